@@ -366,6 +366,7 @@ def run_set(ctx, kind, indels, ads, reads, lookups, dumps, extra_perms, dump):
     if ix._index._ambiguous:
         ctx.count("set:with-ambiguous-keys")
     perms = make_perms(ctx, kind, indels, ads, adapters, ix, extra_perms)
+    ctx.evaluations += len(reads)
     # the oracle runs on the real objects
     real = [oracle_read(ctx, kind, indels, ads, adapters, ix, rd, perms) for rd in reads]
     # correspondence: same objects with the always-true k-mer finder (only reads with N reach match_to of an adapter)
@@ -459,7 +460,7 @@ def random_sets(ctx, nsets, reads_per_set, maxlen, heavy_ok, extra_perms, dump_e
     for kind, indels, ads, reads in FIXED_SETS:
         run_set(ctx, kind, indels, ads, reads, lookups, dumps, 2, True)
     for i in range(nsets):
-        kind, indels, ads = gen_set(ctx, maxlen, heavy_ok)
+        kind, indels, ads = gen_set(ctx, maxlen, ctx.rng.random() < heavy_ok)
         reads = gen_reads(ctx, kind, indels, ads, reads_per_set)
         small = sum((4 * len(s)) ** tolk(s, r) for s, r in ads) < 4000
         run_set(ctx, kind, indels, ads, reads, lookups, dumps, extra_perms, small and i % dump_every == 0)
@@ -591,17 +592,17 @@ def run(ctx):
                 "suffix of another, several variants at one position), indels on/off; reads: mutated adapter copy + random tail/head, exactly one "
                 "adapter, shorter than the longest indexed string, random, two adapters, with N, lower-case; non-trivial = distinct (set, read) "
                 "with an indexed match that has >= 1 error, or a non-empty string with k >= 1 for edit_environment")
-    sphere_env_cases(ctx, ctx.scale(500, 6000))
+    sphere_env_cases(ctx, ctx.scale(1500, 8000))
     if ctx.tier == "thorough":
         sphere_env_exhaustive(ctx, 5)
-        random_sets(ctx, 12000, 16, 16, True, 3, 4)
+        random_sets(ctx, 12000, 16, 16, 1.0, 3, 4)
         exhaustive_pairs(ctx, 5, 6, float(os.environ.get("VERIF_C08_BUDGET", "900")))
     else:
-        random_sets(ctx, 420, 14, 12, False, 2, 3)
+        random_sets(ctx, 1300, 14, 12, 0.08, 2, 3)
 
 
 def extended_search(ctx):
-    random_sets(ctx, 3000, 16, 12, False, 3, 4)
+    random_sets(ctx, 3000, 16, 12, 0.05, 3, 4)
 
 
 def replay(ctx, rp):
